@@ -222,8 +222,14 @@ func (p *Path) visitInstr(fr *frame, instr ssa.Instruction) continuation {
 	case *ssa.Go:
 		// Sequential semantics: run the goroutine to completion at spawn.
 		fn, args := p.prepareCall(fr, &instr.Call)
-		p.res.Observed["goroutines-run-at-spawn"] = "yes"
-		p.call(nil, instr.Pos(), fn, args)
+		if p.lazyGo {
+			// second schedule: the goroutine runs only when the spawner blocks or yields
+			pos := instr.Pos()
+			p.pendingGo = append(p.pendingGo, func() { p.call(nil, pos, fn, args) })
+		} else {
+			p.res.Observed["goroutines-run-at-spawn"] = "yes"
+			p.call(nil, instr.Pos(), fn, args)
+		}
 
 	case *ssa.MakeChan:
 		n := p.concretize(fr.get(instr.Size).(*smt.Term), true, "chan size")
